@@ -8,6 +8,8 @@ as it does on the real tree.
 
   T0 reformat      ast.unparse(ast.parse(src))                     (layout, comments, quotes, parentheses)
   T1 alpha         consistent renaming of function-local variables  (x -> x_)
+  T20 split-and    `if A and B: BODY` -> `if A: if B: BODY`
+  T19 merge-if     `if A: if B: BODY` -> `if A and B: BODY`
   T18 guard-invert trailing `if C: BODY` -> `if not C: return|continue` + BODY
   T17 debug-log    `_LOGGER.debug("entering f")` inserted at the top of every function of modules with a _LOGGER
   T16 bool-return  `if C: return True` / `return False` -> `return C`
@@ -144,6 +146,31 @@ class GuardInvert(ast.NodeTransformer):
         self.generic_visit(node)
         if not node.orelse:
             node.body = self._last_if(node.body, ast.Continue())
+        return node
+
+
+class MergeNestedIf(ast.NodeTransformer):
+    """T19: `if A: if B: BODY` (no else on either, inner if is the only statement) -> `if A and B: BODY`."""
+    def visit_If(self, node: ast.If):
+        self.generic_visit(node)
+        if not node.orelse and len(node.body) == 1 and isinstance(node.body[0], ast.If) and not node.body[0].orelse \
+                and not _has_walrus(node.test) and not _has_walrus(node.body[0].test):
+            inner = node.body[0]
+            left = node.test.values if isinstance(node.test, ast.BoolOp) and isinstance(node.test.op, ast.And) else [node.test]
+            right = inner.test.values if isinstance(inner.test, ast.BoolOp) and isinstance(inner.test.op, ast.And) else [inner.test]
+            return ast.If(test=ast.BoolOp(op=ast.And(), values=left + right), body=inner.body, orelse=[])
+        return node
+
+
+class SplitAndIf(ast.NodeTransformer):
+    """T20: `if A and B: BODY` (no else) -> `if A: if B: BODY`."""
+    def visit_If(self, node: ast.If):
+        self.generic_visit(node)
+        if not node.orelse and isinstance(node.test, ast.BoolOp) and isinstance(node.test.op, ast.And) and len(node.test.values) >= 2 \
+                and not _has_walrus(node.test):
+            first, rest = node.test.values[0], node.test.values[1:]
+            inner_test = rest[0] if len(rest) == 1 else ast.BoolOp(op=ast.And(), values=rest)
+            return ast.If(test=first, body=[ast.If(test=inner_test, body=node.body, orelse=[])], orelse=[])
         return node
 
 
@@ -549,7 +576,7 @@ def transform(name: str, src: str, filename: str) -> str:
     if name == "T1":
         return alpha_rename(src, filename)
     tr = {"T2": SwapElse, "T3": DeMorgan, "T4": IsNotNone, "T5": TempReturn, "T6": AugExtend, "T8": LoopToComp, "T9": ReturnElse,
-          "T10": FlattenElse, "T11": IfExpToStmt, "T12": HoistArg, "T14": FStringToFormat, "T15": SwapEq, "T16": BoolReturn, "T17": AddDebugLog, "T18": GuardInvert}[name]()
+          "T10": FlattenElse, "T11": IfExpToStmt, "T12": HoistArg, "T14": FStringToFormat, "T15": SwapEq, "T16": BoolReturn, "T17": AddDebugLog, "T18": GuardInvert, "T19": MergeNestedIf, "T20": SplitAndIf}[name]()
     tree = tr.visit(ast.parse(src))
     ast.fix_missing_locations(tree)
     return ast.unparse(tree)
@@ -601,7 +628,7 @@ def main() -> int:
     ap.add_argument("-p", nargs="*", default=[])
     ap.add_argument("--keep", action="store_true")
     ns = ap.parse_args()
-    names = ns.transforms or ["T0", "T1", "T2", "T3", "T4", "T5", "T6", "T7", "T8", "T9", "T10", "T11", "T12", "T13", "T14", "T15", "T16", "T17", "T18"]
+    names = ns.transforms or ["T0", "T1", "T2", "T3", "T4", "T5", "T6", "T7", "T8", "T9", "T10", "T11", "T12", "T13", "T14", "T15", "T16", "T17", "T18", "T19", "T20"]
     props = ns.p or PROPS
     bad = 0
     for name in names:
